@@ -54,7 +54,7 @@ def transform(inst, kind, rng_seed):
     info['map'] = m
   elif kind in ('scale', 'scale_tiny'):
     # a change of monetary unit: moderate, or so small that absolute tolerances / fixed-decimal rounding would show
-    c = 2.0 ** (rng.choice([-3, -1, 2, 5, 10]) if kind == 'scale' else rng.choice([-12, -20, -30]))
+    c = 2.0 ** (rng.choice([-3, -1, 2, 5, 10]) if kind == 'scale' else rng.choice([-12, -20, -30, -40, -60]))
     t['rows'] = [[g, d, v * c] for g, d, v in t['rows']]
     info['c'] = c
     t['scale_budget'] = c
@@ -221,7 +221,7 @@ def run(out, tier, model_ok=True):
     out.count((r['iid'], json.dumps(r['resolved'], sort_keys=True)) if nontriv else None)
   out.rule = (f'{n} search instances x 6-7 transformations (row shuffle, date shift by 1/7/365/1000 days, dates as plain day numbers starting at 3/95/990, renaming incl. names that reverse '
               'the alphabetical order and eligibility renamed alike, integer-dtype IDs, scaling of every response and of the budget range by '
-              '2^k for k in -3..10 and for k in {-12,-20,-30}) x both searches, real runs on fresh objects compared design by design (groups up to the renaming, test outcomes and '
+              '2^k for k in -3..10 and for k in {-12,-20,-30,-40,-60}) x both searches, real runs on fresh objects compared design by design (groups up to the renaming, test outcomes and '
               'rounded correlation identical, impact-based quantities scaled; tie classes may be permuted); '
               'non-trivial = some search returned designs; distinct by (instance, parameters)')
   out.extra.update({'instances': n, 'pair_comparisons_by_transformation': by_kind})
